@@ -83,6 +83,10 @@ def fill_concrete(fill):
 
 def build_kwargs(case) -> dict:
     kw = dict(func=case["func"])
+    if isinstance(case["func"], str) and case["func"].startswith("user_"):
+        from . import userlib
+
+        kw["func"] = userlib.USER_AGGS[case["func"]][0]
     kind = case.get("label_kind", "int")
     if case.get("req") is not None:
         tab = LABELS[kind]
